@@ -4,7 +4,9 @@ package main
 // (package memberlist). The engine intercepts them; natively they read a replay vector.
 
 import (
+	"fmt"
 	"go/token"
+	"os"
 	"strings"
 
 	"golang.org/x/tools/go/ssa"
@@ -49,7 +51,14 @@ func init() {
 	})
 	vreg("vRange", func(p *Path, th *thread, caller *frame, pos token.Pos, fn *ssa.Function, args []Value) Value {
 		t := p.input("int", 64)
-		p.assume(And(Cmp(OSle, termArg(args[0]), t), Cmp(OSle, t, termArg(args[1]))))
+		lo, hi := termArg(args[0]), termArg(args[1])
+		p.assume(And(Cmp(OSle, lo, t), Cmp(OSle, t, hi)))
+		if lo.IsConst() && hi.IsConst() && t.Op == OVar {
+			if p.ranges == nil {
+				p.ranges = map[string]ival{}
+			}
+			p.ranges[t.Name] = ival{int64(lo.Val), int64(hi.Val)}
+		}
 		return t
 	})
 	vreg("vAssume", func(p *Path, th *thread, caller *frame, pos token.Pos, fn *ssa.Function, args []Value) Value {
@@ -104,7 +113,11 @@ func init() {
 	vreg("vAdvance", func(p *Path, th *thread, caller *frame, pos token.Pos, fn *ssa.Function, args []Value) Value {
 		// advance virtual time by d, firing (in deadline order) every timer due on the way
 		target := Bin(OAdd, p.now, termArg(args[0]))
-		for guard := 0; guard < 32; guard++ {
+		if p.schedDet {
+			// goroutines started just before run at the current instant (code takes no time), as they do natively
+			p.yieldAll(th)
+		}
+		for guard := 0; guard < 32 || (p.schedDet && guard < 4000); guard++ {
 			fired := false
 			for _, t := range p.activeTimers() {
 				due := Cmp(OSle, t.deadline, target)
@@ -125,7 +138,13 @@ func init() {
 				break
 			}
 		}
-		p.now = Ite(Cmp(OSlt, p.now, target), target, p.now)
+		if p.schedDet && !(p.now.IsConst() && target.IsConst()) {
+			if p.branch(Cmp(OSle, p.now, target)) {
+				p.now = target
+			}
+		} else {
+			p.now = Ite(Cmp(OSlt, p.now, target), target, p.now)
+		}
 		return nil
 	})
 	// vLiveGoroutines: goroutines started since the harness began that have not finished (after letting all run)
@@ -138,6 +157,18 @@ func init() {
 			}
 		}
 		return BV(64, uint64(n))
+	})
+	vreg("vDumpThreads", func(p *Path, th *thread, caller *frame, pos token.Pos, fn *ssa.Function, args []Value) Value {
+		for _, t := range p.threads {
+			if !t.finished && t != th {
+				fmt.Fprintf(os.Stderr, "THREAD %d %s blocked=%v %s\n", t.id, t.what, t.blocked != nil, t.blockWhat)
+			}
+		}
+		fmt.Fprintf(os.Stderr, "NOW %s timers=%d\n", p.now.String(), len(p.timers))
+		for _, t := range p.activeTimers() {
+			fmt.Fprintf(os.Stderr, "TIMER %d deadline=%s fn=%v ch=%v\n", t.id, t.deadline.String(), t.fn != nil, t.ch != nil)
+		}
+		return nil
 	})
 	vreg("vYield", func(p *Path, th *thread, caller *frame, pos token.Pos, fn *ssa.Function, args []Value) Value {
 		p.yieldAll(th)
@@ -167,6 +198,17 @@ func init() {
 			p.encLen = v
 		case "aead-tamper":
 			p.aeadTamper = v != 0
+		case "threads":
+			p.maxThreadsOpt = v
+		case "timers":
+			p.maxTimersOpt = v
+		case "sched-det":
+			p.schedDet = v != 0
+			if p.schedDet {
+				p.note("bound: one scheduling order per timing assignment (runnable thread with the lowest id first)")
+			}
+		case "krandom-det":
+			p.kRandomDet = v != 0
 		case "decode-arbitrary":
 			p.decodeArbOff = v == 0
 		default:
